@@ -119,7 +119,7 @@ CHECKS = {
     },
     "C19": {
         "level": "fault_enumeration",
-        "tests": [{"name": "TestC19Small", "quick": 160, "thorough": 11520, "min_per_shard": 20}, {"name": "TestC19Blocks", "quick": 10, "thorough": 960, "min_per_shard": 5}, {"name": "TestC19Wide", "quick": 12, "thorough": 480, "min_per_shard": 4},
+        "tests": [{"name": "TestC19Small", "quick": 160, "thorough": 11520, "min_per_shard": 20}, {"name": "TestC19Blocks", "quick": 40, "thorough": 960, "min_per_shard": 5}, {"name": "TestC19Wide", "quick": 12, "thorough": 480, "min_per_shard": 4},
                   {"name": "TestC19Regress", "quick": 0}, {"name": "TestC19RegressRetry", "quick": 0}, {"name": "TestC19RegressDocValueHeader", "quick": 0}],
         "assumptions": ["storage faults are injected by swapping the unexported io.ReaderAt inside segment.Data (reflect+unsafe, self-tested at start-up) before ice.Load; every ReadAt from index k on fails",
                         "faults during ice.Load itself are not injected (Load is not a read call on a segment)",
